@@ -507,3 +507,55 @@ def attr_chain(e: ast.expr) -> Optional[str]:
         parts.append(e.id)
         return ".".join(reversed(parts))
     return None
+
+
+def loop_canon(f: FuncInfo, loop: ast.For, e: ast.expr) -> str:
+    """normalised, name-free text of expression e inside `loop`, with the element the loop is at written SEQ[__k__] whichever way the loop is spelled:
+    `for i in range(len(A)): .. A[i] .. B[i]`, `for i, a in enumerate(A): .. a .. B[i]`, `for a, b in zip(A, B): .. a .. b`, `for a in A`.
+    Names bound as elements are replaced by SEQ[__k__] (components of a tuple target by SEQ[__k__][n]), subscripts by the index variable by [__k__]; single-assignment
+    locals are inlined before and after."""
+    import copy
+    K = ast.Name(id="__k__", ctx=ast.Load())
+    sub: Dict[str, ast.expr] = {}
+    index_vars = set()
+
+    def bind(t, v):
+        if isinstance(t, ast.Name):
+            sub[t.id] = v
+        elif isinstance(t, (ast.Tuple, ast.List)):
+            for n_, x in enumerate(t.elts):
+                bind(x, ast.Subscript(value=copy.deepcopy(v), slice=ast.Constant(value=n_), ctx=ast.Load()))
+    it, tg = loop.iter, loop.target
+
+    def at(seq):
+        return ast.Subscript(value=copy.deepcopy(seq), slice=copy.deepcopy(K), ctx=ast.Load())
+    if isinstance(it, ast.Call) and isinstance(it.func, ast.Name) and it.func.id in ("range", "prange") and isinstance(tg, ast.Name):
+        index_vars.add(tg.id)
+    elif isinstance(it, ast.Call) and isinstance(it.func, ast.Name) and it.func.id == "enumerate" and isinstance(tg, ast.Tuple) and len(tg.elts) == 2 and it.args:
+        if isinstance(tg.elts[0], ast.Name):
+            index_vars.add(tg.elts[0].id)
+        bind(tg.elts[1], at(it.args[0]))
+    elif isinstance(it, ast.Call) and isinstance(it.func, ast.Name) and it.func.id == "zip" and isinstance(tg, ast.Tuple) and len(tg.elts) == len(it.args):
+        for x, a in zip(tg.elts, it.args):
+            bind(x, at(a))
+    else:
+        bind(tg, at(it))
+
+    class T(ast.NodeTransformer):
+        def visit_Name(s2, n):
+            if isinstance(n.ctx, ast.Load) and n.id in sub:
+                return copy.deepcopy(sub[n.id])
+            if isinstance(n.ctx, ast.Load) and n.id in index_vars:
+                return copy.deepcopy(K)
+            return n
+    e = inline_locals(f, e)
+    e = T().visit(copy.deepcopy(e))
+    # the sequences themselves may be single-assignment locals
+    class L(ast.NodeTransformer):
+        def visit_Name(s2, n):
+            if isinstance(n.ctx, ast.Load) and n.id != "__k__":
+                r = inline_locals(f, ast.copy_location(ast.Name(id=n.id, ctx=ast.Load()), loop))
+                return r
+            return n
+    e = L().visit(e)
+    return norm_text(e, limit=4000).replace(" ", "").replace('"', "'")
